@@ -12,6 +12,170 @@ use std::sync::Arc;
 
 pub struct C14;
 
+/// A real block device: a loop device over a scratch file (needs root + losetup; skipped, and recorded, otherwise).
+pub struct LoopDev {
+    pub dev: String,
+    file: std::path::PathBuf,
+}
+impl LoopDev {
+    pub fn attach(dir: &std::path::Path, name: &str, size: usize) -> Option<LoopDev> {
+        let file = dir.join(name);
+        std::fs::write(&file, vec![0u8; size]).ok()?;
+        let out = std::process::Command::new("losetup").arg("-f").arg("--show").arg(&file).output().ok()?;
+        if !out.status.success() {
+            let _ = std::fs::remove_file(&file);
+            return None;
+        }
+        let dev = String::from_utf8_lossy(&out.stdout).trim().to_string();
+        if !dev.starts_with("/dev/") {
+            return None;
+        }
+        Some(LoopDev { dev, file })
+    }
+    pub fn write(&self, data: &[u8]) -> bool {
+        use std::io::{Seek, SeekFrom, Write};
+        let Ok(mut f) = std::fs::OpenOptions::new().write(true).open(&self.dev) else { return false };
+        f.seek(SeekFrom::Start(0)).is_ok() && f.write_all(data).is_ok() && f.sync_all().is_ok()
+    }
+    pub fn read(&self) -> Option<Vec<u8>> {
+        std::fs::read(&self.dev).ok()
+    }
+    /// detach loop devices left behind by killed workers (backing files under our work directory)
+    pub fn detach_stale(work_root: &str) {
+        if let Ok(out) = std::process::Command::new("losetup").arg("-a").output() {
+            for l in String::from_utf8_lossy(&out.stdout).lines() {
+                if l.contains(work_root) {
+                    if let Some(dev) = l.split(':').next() {
+                        let _ = std::process::Command::new("losetup").arg("-d").arg(dev).status();
+                    }
+                }
+            }
+        }
+    }
+}
+impl Drop for LoopDev {
+    fn drop(&mut self) {
+        let _ = std::process::Command::new("losetup").arg("-d").arg(&self.dev).status();
+        let _ = std::fs::remove_file(&self.file);
+    }
+}
+
+#[derive(Clone, Debug, Serialize, Deserialize)]
+pub struct LoopCase {
+    pub flags: FlagSet,
+    pub arch: ArchKind,
+    pub verify_header: Option<bool>,
+    pub source: SourceSpec,
+    pub prior_seed: u32,
+    pub small: bool,
+    pub cfg: ArchCfg,
+    pub flip: u16,
+    /// the output path is a symbolic link to the device
+    pub via_symlink: bool,
+}
+
+/// Refusal cases against a REAL block device (no hook involved, production binary).
+fn run_loop_case(c: &LoopCase, big: &LoopDev, small: &LoopDev, rec: &mut CaseRec) -> Result<(), String> {
+    if !l2::cli_expressible(&c.cfg.chunker) {
+        rec.excluded = Some("not_cli_expressible".into());
+        return Ok(());
+    }
+    let dir = worker_dir("C14");
+    let sub = dir.join("loopcase");
+    let _ = std::fs::remove_dir_all(&sub);
+    std::fs::create_dir_all(&sub).unwrap();
+    let source = expand(&c.source);
+    let devsel = if c.small && source.len() > 512 { small } else { big };
+    let too_small = c.small && source.len() > 512;
+    let valid = crate::util::block_on(crate::l1::compress_lib(Arc::new(source.clone()), &c.cfg, ReadScript::full(), &Default::default()))?;
+    let hdr = fmt::decode_header(&valid).map_err(|e| format!("harness: {}", e))?;
+    let arch_bytes = make_archive(c.arch, &valid, c.flip);
+    l2::write_file(&sub.join("a.cba"), &arch_bytes);
+    // pre-existing device content
+    let dev_len = devsel.read().map(|d| d.len()).unwrap_or(0);
+    let mut prior = Vec::new();
+    SplitMix(c.prior_seed as u64).fill(&mut prior, dev_len);
+    if !devsel.write(&prior) {
+        return Err("harness: cannot write to the loop device".into());
+    }
+    let before = devsel.read().ok_or("harness: cannot read the loop device")?;
+    let out_path = if c.via_symlink {
+        let l = sub.join("dev.link");
+        std::os::unix::fs::symlink(&devsel.dev, &l).map_err(|e| format!("harness: symlink: {}", e))?;
+        l.display().to_string()
+    } else {
+        devsel.dev.clone()
+    };
+    let mut args: Vec<String> = vec!["clone".into()];
+    match c.flags {
+        FlagSet::Neither => {}
+        FlagSet::ForceCreate => args.push("--force-create".into()),
+        FlagSet::SeedOutput => args.push("--seed-output".into()),
+        FlagSet::Both => args.extend(["--force-create".to_string(), "--seed-output".to_string()]),
+    }
+    if let Some(m) = c.verify_header {
+        let mut sum = hdr.checksum.clone();
+        if !m {
+            let bit = c.flip as usize % 512;
+            sum[bit / 8] ^= 1 << (bit % 8);
+        }
+        args.extend(["--verify-header".to_string(), hex::encode(sum)]);
+    }
+    args.extend(["a.cba".to_string(), out_path]);
+    let r_exists = c.flags == FlagSet::Neither;
+    let r_archive = c.arch != ArchKind::Valid;
+    let r_header = c.arch == ArchKind::Valid && c.verify_header == Some(false);
+    let r_small = too_small && c.arch == ArchKind::Valid && c.verify_header != Some(false) && !r_exists;
+    let refusal = r_exists || r_archive || r_header || r_small;
+    let run = l2::run_bita(&sub, &l2::RunSpec { args: args.clone(), ..Default::default() });
+    let after = devsel.read().ok_or("harness: cannot read the loop device")?;
+    let _ = std::fs::remove_dir_all(&sub);
+    if run.timed_out {
+        return Err(format!("[timeout] {}", run.describe()));
+    }
+    if refusal {
+        if run.ok() {
+            return Err(format!("refusal expected on a real block device (exists-without-flag={}, invalid-archive={}, header-mismatch={}, device-too-small={}) but the command exited 0: {:?}", r_exists, r_archive, r_header, r_small, args));
+        }
+        if after != before {
+            return Err(format!("refused operation modified the block device (first difference at byte {:?}; exists-without-flag={}, invalid-archive={}, header-mismatch={}, device-too-small={}; args {:?})", crate::util::first_diff(&after, &before), r_exists, r_archive, r_header, r_small, args));
+        }
+        rec.nontrivial = true;
+        rec.class("refused");
+        rec.class_if(r_exists, "refusal_output_exists");
+        rec.class_if(r_archive, "refusal_invalid_archive");
+        rec.class_if(r_header, "refusal_header_mismatch");
+        rec.class_if(r_small, "refusal_device_too_small");
+    } else {
+        rec.class("proceeds");
+        if !run.ok() {
+            return Err(format!("harness expectation: no refusal condition holds on the real block device but the command failed: {} {:?}", run.describe(), args));
+        }
+        if after.len() != before.len() || after[..source.len()] != source[..] {
+            return Err("clone onto a real block device: device content does not start with the source".into());
+        }
+    }
+    rec.class("real_loop_device");
+    rec.class_if(c.via_symlink, "output_is_symlink_to_device");
+    rec.level = Some("L2");
+    Ok(())
+}
+
+fn loop_case_strategy() -> impl Strategy<Value = LoopCase> {
+    (
+        prop_oneof![4 => Just(FlagSet::Neither), 2 => Just(FlagSet::ForceCreate), 2 => Just(FlagSet::SeedOutput), 1 => Just(FlagSet::Both)],
+        prop_oneof![5 => Just(ArchKind::Valid), 1 => Just(ArchKind::NotAnArchive), 1 => Just(ArchKind::HeaderBitFlip), 1 => Just(ArchKind::NoChunkerParams), 1 => Just(ArchKind::TruncatedHeader)],
+        prop_oneof![3 => Just(None), 1 => Just(Some(true)), 2 => Just(Some(false))],
+        prop_oneof![2 => source_strategy(3, 600), 1 => Just(vec![Seg::Random { n: 900, seed: 3 }])],
+        any::<u32>(),
+        prop::bool::weighted(0.3),
+        (l2::cli_chunker_strategy(), hash_len_strategy(8), light_comp_strategy()).prop_map(|(chunker, hash_len, comp)| ArchCfg { chunker, hash_len, comp, buffers: 2 }),
+        any::<u16>(),
+        prop::bool::weighted(0.25),
+    )
+        .prop_map(|(flags, arch, verify_header, source, prior_seed, small, cfg, flip, via_symlink)| LoopCase { flags, arch, verify_header, source, prior_seed, small, cfg, flip, via_symlink })
+}
+
 #[derive(Clone, Copy, Debug, Serialize, Deserialize, PartialEq)]
 pub enum OutKind {
     Absent,
@@ -311,10 +475,36 @@ impl Prop for C14 {
     fn run_worker(&self, cx: &mut WorkerCtx) {
         let t = cx.tier;
         cx.run_prop("matrix", t.pick(12_000, 160_000), case_strategy(), run_case);
+        // real block devices (loop devices): one worker only, sequential
+        if cx.worker == 0 && std::env::var("VERIF_ONLY").map(|o| o.split(',').any(|v| v == "loopdev")).unwrap_or(true) {
+            let dir = worker_dir("C14");
+            LoopDev::detach_stale(&format!("{}/target/work/C14", crate::engine::verif_root()));
+            match (LoopDev::attach(&dir, "loop_big.img", 64 * 1024), LoopDev::attach(&dir, "loop_small.img", 512)) {
+                (Some(big), Some(small)) => {
+                    let n = t.pick(96u64, 1500u64);
+                    // all cases on this worker: temporarily pretend to be the only worker
+                    let (w, nw) = (cx.worker, cx.nworkers);
+                    cx.worker = 0;
+                    cx.nworkers = 1;
+                    cx.run_prop("loopdev", n, loop_case_strategy(), |c, rec| run_loop_case(c, &big, &small, rec));
+                    cx.worker = w;
+                    cx.nworkers = nw;
+                    cx.note("real loop devices were available: the 'loopdev' variant ran against /dev/loopN");
+                }
+                _ => cx.note("losetup could not attach a loop device: the 'loopdev' variant (real block devices) was skipped; block devices were exercised through the cfg(oll3_bita_verif) hook only"),
+            }
+        }
         let _ = std::fs::remove_dir_all(worker_dir("C14"));
     }
-    fn replay(&self, _cx: &mut WorkerCtx, _variant: &str, case: &Value) -> Result<(), String> {
+    fn replay(&self, _cx: &mut WorkerCtx, variant: &str, case: &Value) -> Result<(), String> {
         let mut rec = CaseRec::default();
+        if variant == "loopdev" {
+            let dir = worker_dir("C14");
+            let (Some(big), Some(small)) = (LoopDev::attach(&dir, "loop_big.img", 64 * 1024), LoopDev::attach(&dir, "loop_small.img", 512)) else {
+                return Err("[inconclusive] no loop device available for the replay".into());
+            };
+            return run_loop_case(&serde_json::from_value(case.clone()).map_err(|e| e.to_string())?, &big, &small, &mut rec);
+        }
         run_case(&serde_json::from_value(case.clone()).map_err(|e| e.to_string())?, &mut rec)
     }
 }
